@@ -239,6 +239,11 @@ def run_case(ctx, case):
         if case.get("collide"):
             from vf.gen import collide
             collide.generate(random.Random(case["libseed"]), "liba", case["collide"]).write(d)
+        elif case.get("adv"):
+            from vf.gen import advgen
+            # no writable char buffers here: the database calls both `char *` and `char const *` an atomic string, so the
+            # redeclaration oracle (which spells it `char const *`) cannot judge them
+            advgen.generate(random.Random(case["libseed"]), "liba", char_buffers=False).write(d)
         else:
             libgen.generate(random.Random(case["libseed"]), "liba", size=case.get("size", 1.0), oddities=True,
                             ext=True).write(d)
@@ -292,4 +297,9 @@ def main(chk):
         cases.append(dict(id=cid, libseed=rng.randrange(1 << 30), collide=rng.choice([2, 3, 4, 6]),
                           cfg=rng.choice([["-c", "-fnames"], ["-c", "-python", "-fnames"], ["-python", "-fnames"],
                                           ["-c", "-fnames", "-unique-names"]])))
+    # hand-shaped adversarial libraries (keyword names, char buffers, abstract hierarchies whose derived classes only
+    # hide a pure virtual): the closure rules are the same
+    for i in range(chk.pick(8, 80)):
+        cid += 1
+        cases.append(dict(id=cid, libseed=rng.randrange(1 << 30), adv=True, cfg=rng.choice(CONFIGS)))
     chk.run_cases(__name__, cases)
